@@ -37,6 +37,7 @@ class Stock(Element):
     def initial_value(self, initial_value):
         if isinstance(initial_value, (float, Constant, Converter)):
             self.__initial_value = initial_value
+            self.model.reset_cache()
             self.build_function_string()
             self.generate_function()
         else:
